@@ -302,6 +302,21 @@ def shard(i, n, tier, seed, rec, hb):
         rec.count(f"encoder_source[{da}]")
         cycle(rec, pvl, t0, f"encoded-{da}:{key}", {"seed": key, "written_by": da,
                                                     "cfg_written": cfga}, rng)
+    # a word that is white space to Python's text wrapping but not to the
+    # dialect (or a dash), slid along a string that has to be wrapped, so that
+    # it comes to stand at the end and at the start of a line at some point
+    filler = " ".join(["record"] * 14)
+    k = 0
+    for sep in ("\x1c", "\x1d", "\x1e", "\x1f", "\xa0", "-", "a-", "\x1c\x1f"):
+        for pad in range(1, 40):
+            k += 1
+            if k % n != i:
+                continue
+            hb.beat()
+            t0 = f'note = "{"x" * pad} {sep} {filler} {sep} {filler}"\nEND\n'
+            rec.count("wrap_hazard_texts")
+            cycle(rec, pvl, t0, f"wrap-hazard:{sep!r}:{pad}", {"pad": pad},
+                  random.Random(f"C07-wrap-{seed}-{k}"))
     files = corpus(pvl)
     for k, (name, text) in enumerate(files):
         if k % n != i:
@@ -322,7 +337,7 @@ def shard(i, n, tier, seed, rec, hb):
 
 
 def finish_kwargs(rec, tier):
-    req = ["t0_loaded", "corpus_files", "loader_only[empty-value-placeholder]",
+    req = ["t0_loaded", "corpus_files", "wrap_hazard_texts", "loader_only[empty-value-placeholder]",
            "loader_only[leap-second-string]"]
     req += [f"stable[{d}]" for d in DIALECTS]
     req += [f"encoder_source[{d}]" for d in DIALECTS]
